@@ -44,8 +44,17 @@ static mut HAS_P0: bool = false;
 static mut PI_CODES: [u8; 2] = [0; 2];
 static mut PI_N: usize = 0;
 
+// Only EFFECTS are logged (insert, remove, classify, test a pair): how often and in which order the code asks the status
+// structure pure questions (contains / prev / next) is its own business -- the answers it got show in the arguments of the
+// effects.  (The debug assertion in `subdivide` asks `contains` a second time, for example.)
+static mut QUERIES: usize = 0;
+
 fn log(kind: u8, a: u32, b: u32) {
     unsafe {
+        if kind == PREV || kind == NEXT || kind == CONTAINS {
+            QUERIES += 1;
+            return;
+        }
         assert!(LOG_N < 16, "call log full");
         LOG[LOG_N] = (kind, a, b);
         LOG_N += 1;
@@ -189,10 +198,9 @@ pub fn sweep_step_body<S: Src>(s: &mut S) {
         assert!(n == 0, "C09/C05: right of the relevant box the sweep stops without touching the status structure");
     } else if left {
         // insertion: classify against the predecessor, test against both new neighbours, re-classify after a late overlap
-        let mut k = 0;
-        assert!(entry(0) == (INSERT, ev_id, null) && entry(1) == (PREV, ev_id, null) && entry(2) == (NEXT, ev_id, null), "C13: a left event enters the status structure and asks for both neighbours");
-        assert!(entry(3) == (FIELDS, ev_id, prev_or_null), "C14: the new segment is classified against its predecessor");
-        k = 4;
+        assert!(entry(0) == (INSERT, ev_id, null), "C13: a left event enters the status structure");
+        assert!(entry(1) == (FIELDS, ev_id, prev_or_null), "C14: the new segment is classified against its predecessor");
+        let mut k = 2;
         let mut pi = 0;
         if has_n1 {
             assert!(entry(k) == (INTERSECT, ev_id, n1_id), "C13: the new segment is tested against its upper neighbour (lower, upper)");
@@ -208,16 +216,14 @@ pub fn sweep_step_body<S: Src>(s: &mut S) {
             k += 1;
             if [c0, c1][pi] == 2 {
                 let pp = if has_p0 { p0_id } else { null };
-                assert!(entry(k) == (PREV, p1_id, null) && entry(k + 1) == (FIELDS, p1_id, pp) && entry(k + 2) == (FIELDS, ev_id, p1_id), "C14: after a late overlap with the lower neighbour it is re-classified against ITS predecessor, then the new segment against it");
-                k += 3;
+                assert!(entry(k) == (FIELDS, p1_id, pp) && entry(k + 1) == (FIELDS, ev_id, p1_id), "C14: after a late overlap with the lower neighbour it is re-classified against ITS predecessor, then the new segment against it");
+                k += 2;
             }
         }
         assert!(n == k, "C13: nothing else happens for a left event");
     } else {
         // removal: the two segments that become adjacent are tested, whatever operands they belong to
-        assert!(entry(0) == (CONTAINS, other_id, null) && entry(1) == (CONTAINS, other_id, null), "C13: a right event looks up its segment");
-        assert!(entry(2) == (PREV, other_id, null) && entry(3) == (NEXT, other_id, null), "C13: ... and its two neighbours");
-        let mut k = 4;
+        let mut k = 0;
         if has_p1 && has_n1 {
             assert!(entry(k) == (INTERSECT, p1_id, n1_id), "C13: the neighbours that become adjacent are tested against each other");
             k += 1;
